@@ -290,12 +290,15 @@ pub fn generate_c15(run_seed: u64, thorough: bool, faults: bool) -> ListDesc {
     for k in 0..n_inner {
         m.heap.new_list(inner_init[k].clone());
     }
-    let script_ok = |op: &Op| -> bool { !matches!(op, Op::FromVec { .. } | Op::CloneH { .. } | Op::DropH { .. } | Op::ToVec { .. } | Op::Iter { .. } | Op::Debug { .. }) };
+    let script_ok = |op: &Op| -> bool { !matches!(op, Op::InnerPush { .. } | Op::FromVec { .. } | Op::CloneH { .. } | Op::DropH { .. } | Op::ToVec { .. } | Op::Iter { .. } | Op::Debug { .. }) };
     let rust_ok = |op: &Op| -> bool { !matches!(op, Op::Join { .. } | Op::ForCount { .. } | Op::ForSum { .. } | Op::ForPush { .. }) };
     for _ in 0..nops {
         let filled: Vec<usize> = (0..nslots).filter(|&s| m.slots[s].is_some()).collect();
         let any = |g: &mut Gen| g.r.below(nslots as u64) as usize;
-        let op = if filled.is_empty() || g.r.chance(1, 12) {
+        let op = if elem == ElemKind::Nested && g.r.chance(1, 8) {
+            g.next_val += 1;
+            Op::InnerPush { inner: g.r.below(n_inner as u64) as usize, v: 100 + g.next_val }
+        } else if filled.is_empty() || g.r.chance(1, 12) {
             match g.r.below(3) {
                 0 => Op::New { dst: any(&mut g) },
                 1 => {
@@ -352,7 +355,12 @@ pub fn generate_c15(run_seed: u64, thorough: bool, faults: bool) -> ListDesc {
                     }
                 }
                 17 => {
-                    if len > 20 { Op::Len { h } } else { Op::ForPush { h, n: g.r.below(4) } }
+                    // open finding F5 (known_findings.json): a script that pushes a zero-sized element it
+                    // only borrows (the loop variable) adds it without cloning it. That exact pattern is
+                    // left out of the random workload (it is replayed from findings/ at every check),
+                    // otherwise every history containing it would end there.
+                    let n = if elem == ElemKind::Zst { 0 } else { g.r.below(4) };
+                    if len > 20 { Op::Len { h } } else { Op::ForPush { h, n } }
                 }
                 _ => Op::Concat { a: h, b: h, dst: Some(any(&mut g)), plus: false },
             }
@@ -374,15 +382,20 @@ pub fn generate_c15(run_seed: u64, thorough: bool, faults: bool) -> ListDesc {
     }
     let mut fl = Vec::new();
     if faults {
-        // pick 1-2 operations whose n-th element clone / eq panics (Rust-API paths)
+        // pick 1-2 operations whose n-th element clone / eq panics. Only Rust-API paths that
+        // do not go through an `extern "C"` vtable function can unwind: get, to_vec, into_iter
+        // (element clone) and == (element eq).
         let mut fr = Rng::new(rng::derive(run_seed, &[rng::label("faults")]));
+        let clone_sites: Vec<usize> = (0..ops.len())
+            .filter(|&k| ops[k].1 == Origin::Rust && matches!(ops[k].0, Op::Get { .. } | Op::ToVec { .. } | Op::Iter { .. } | Op::Debug { .. }))
+            .collect();
+        let eq_sites: Vec<usize> = (0..ops.len()).filter(|&k| ops[k].1 == Origin::Rust && matches!(ops[k].0, Op::Eq { .. })).collect();
         for _ in 0..1 + fr.below(2) {
-            let at = fr.below(ops.len() as u64) as usize;
             let nth = fr.below(4) as i64;
-            if fr.chance(2, 3) {
-                fl.push(Fault::ClonePanic { thread: 0, at, nth });
-            } else {
-                fl.push(Fault::EqPanic { thread: 0, at, nth });
+            if fr.chance(2, 3) && !clone_sites.is_empty() {
+                fl.push(Fault::ClonePanic { thread: 0, at: *fr.pick(&clone_sites), nth });
+            } else if !eq_sites.is_empty() {
+                fl.push(Fault::EqPanic { thread: 0, at: *fr.pick(&eq_sites), nth });
             }
         }
     }
@@ -461,6 +474,7 @@ pub fn op_label(op: &Op, origin: &Origin) -> String {
         Op::ForCount { .. } => "for",
         Op::ForSum { .. } => "for-sum",
         Op::ForPush { .. } => "for-push",
+        Op::InnerPush { .. } => "inner-push",
     };
     format!("{}:{}", if *origin == Origin::Script { "script" } else { "rust" }, name)
 }
@@ -537,8 +551,8 @@ where
                     sched::set_label(&op_label(op, origin));
                     for f in &faults {
                         match f {
-                            Fault::ClonePanic { thread, at, nth } if *thread == t && *at == k => tracked::arm_clone_panic(*nth),
-                            Fault::EqPanic { thread, at, nth } if *thread == t && *at == k => tracked::arm_eq_panic(*nth),
+                            Fault::ClonePanic { thread, at, nth } if *thread == t && *at == k && *origin == Origin::Rust && matches!(op, Op::Get { .. } | Op::ToVec { .. } | Op::Iter { .. } | Op::Debug { .. }) => tracked::arm_clone_panic(*nth),
+                            Fault::EqPanic { thread, at, nth } if *thread == t && *at == k && *origin == Origin::Rust && matches!(op, Op::Eq { .. }) => tracked::arm_eq_panic(*nth),
                             _ => {}
                         }
                     }
@@ -641,6 +655,11 @@ where
     c.insert(format!("elem_{}", d.elem.suffix()), 1);
     c.insert(format!("strategy_{}", d.strategy.split('/').next().unwrap_or("")), 1);
     c.insert("ops".into(), d.threads.iter().map(|t| t.ops.len() as u64).sum());
+    for t in &d.threads {
+        for (op, origin) in &t.ops {
+            *c.entry(format!("op_{}", op_label(op, origin))).or_insert(0) += 1;
+        }
+    }
     c.insert("lin_states".into(), lin_states);
     c.insert("arena_live_blocks_at_end".into(), ar.live_blocks as u64);
     let st1 = alloc_stats();
